@@ -215,7 +215,12 @@ Section Par1.
       else match io_reads files st with
            | (Ok datas, st1) =>
                match par1_outputs parPath nv names datas with
-               | Ok outs => io_writes outs st1
+               | Ok outs =>
+                   (* Encoder.Write: an input file that is the index file or a volume about to be written is refused
+                      before the first write (paths compared after filepath.Clean) *)
+                   if existsb (fun f => existsb (fun o : list N * bytes => str_eqb (clean f) (clean (fst o))) outs) files
+                   then (Err EOther, st1)
+                   else io_writes outs st1
                | Err e => (Err e, st1)
                | Panic q => (Panic q, st1)
                end
@@ -279,8 +284,10 @@ Section Par1.
         | (Ok b, st1) =>
             match read_volume b with
             | Ok v =>
-                if negb (bytes_eqb (v_sethash_stored v) sethash) then (Err EMalformed, st1)
-                else if negb (v_number v =? N.of_nat (S i)) then (Err EMalformed, st1)
+                (* a volume of another set (stale or foreign: other set hash, or a volume number that does not match
+                   the file name) is unusable, like one that does not parse *)
+                if negb (bytes_eqb (v_sethash_stored v) sethash) then load_vols indexPath sethash (S i) n' size (acc ++ [None]) st1
+                else if negb (v_number v =? N.of_nat (S i)) then load_vols indexPath sethash (S i) n' size (acc ++ [None]) st1
                 else if Nat.eqb (length (v_data v)) 0 then (Err EMalformed, st1)
                 else if negb (Nat.eqb size 0) && negb (Nat.eqb (length (v_data v)) size) then (Err EMalformed, st1)
                 else load_vols indexPath sethash (S i) n' (length (v_data v)) (acc ++ [Some (v_data v)]) st1
@@ -315,9 +322,10 @@ Section Par1.
                   match ds with
                   | [] => (Err EOther, st2)                   (* "no file data found" *)
                   | _ =>
-                    if 256 <=? v_count v then (Err EMalformed, st2)         (* no parity volume can exist *)
+                    (* only the entries saved in the volume set are shards and count against the limit of 256 *)
+                    if 256 <=? N.of_nat (length es) then (Err EMalformed, st2)         (* no parity volume can exist *)
                     else
-                      let maxv := N.to_nat (N.min (256 - v_count v) 99) in
+                      let maxv := N.to_nat (N.min (256 - N.of_nat (length es)) 99) in
                       match load_vols indexPath (v_sethash_stored v) 0 maxv 0 [] st2 with
                       | (Ok (slots, size), st3) =>
                           (Ok {| s_index := indexPath; s_vol := v; s_saved := es; s_data := ds; s_size := size;
